@@ -216,19 +216,38 @@ def carr(name, rows, dims, ctype='int'):
 
 
 def table_arrays(tab):
-    """the dumped tables as one narrow constant array per field (a read of a constant table at a symbolic cell costs the solver in proportion to the
-    element width: measured 8 500 clauses per read of an int[NS][W][5] cell field against 1 200 for unsigned char[NS][W])"""
+    """the dumped tables as constant data: one packed word per action cell (type:2 | state:10 | left:4 | beta:4 | rule id:5) and a short per jump cell
+    (the cost of reading a constant table at a symbolic cell is dominated by decoding the index: one read per access instead of one per field)"""
     ns, w, jw = tab['nstates'], tab['action_width'], max(1, tab['jump_width'])
-    act = tab['action']
-    def field(k): return [[c[k] for c in row] for row in act]
-    st = 'unsigned char' if ns < 256 else 'unsigned short'
-    o = [carr('LR_T', field(0), [ns, w], 'unsigned char'), carr('LR_ST', field(1), [ns, w], st), carr('LR_LEFT', field(2), [ns, w], 'unsigned char'),
-         carr('LR_BETA', field(3), [ns, w], 'unsigned char'), carr('LR_RID', [[max(0, x) for x in r] for r in field(4)], [ns, w], 'unsigned char'),
+    def pack(c):
+        t, st, left, beta, rid = c; rid = max(0, rid)
+        if not (0 <= t < 4 and 0 <= st < 1024 and 0 <= left < 16 and 0 <= beta < 16 and 0 <= rid < 32): raise e1.BuildError('table cell outside the packed layout: %s' % (c,))
+        return '%du' % (t | st << 2 | left << 12 | beta << 16 | rid << 20)
+    o = [carr('LR_CELL', [[pack(c) for c in row] for row in tab['action']], [ns, w], 'unsigned'),
          carr('LR_JUMP', [r if r else [-1] for r in tab['jump']], [ns, jw], 'short')]
+    if ns * w > 64:
+        # large tables: a constant array of more than 64 elements read at a symbolic index goes through the solver's array theory (measured: 53-160 s for a
+        # 63 x 22 table); the same function as straight-line code: the most frequent value of the row, then one masked selection per differing cell
+        import collections
+        rowdef = []; exc = []
+        for si, row in enumerate(tab['action']):
+            vals = [int(pack(c)[:-1]) for c in row]
+            d = collections.Counter(vals).most_common(1)[0][0]; rowdef.append(d)
+            exc += [((si << 8) | a, v) for a, v in enumerate(vals) if v != d]
+        o.append('#define LR_SPARSE 1')
+        o.append('static inline unsigned lr_cell(unsigned s, unsigned a) {\n  unsigned r = 0u, m; const unsigned key = (s << 8) | a;')
+        for si, d in enumerate(rowdef): o.append('  m = 0u - (unsigned)(s == %du); r |= %du & m;' % (si, d))
+        for k, v in exc: o.append('  m = 0u - (unsigned)(key == %du); r = (%du & m) | (r & ~m);' % (k, v))
+        o.append('  return r;\n}')
+        o.append('static inline int lr_jump(unsigned s, unsigned x) {\n  unsigned r = 0xffffffffu, m; const unsigned key = (s << 8) | x;')
+        for si, row in enumerate(tab['jump']):
+            for x, v in enumerate(row):
+                if v != -1: o.append('  m = 0u - (unsigned)(key == %du); r = (%du & m) | (r & ~m);' % ((si << 8) | x, v))
+        o.append('  return (int)r;\n}')
     return o
 
 
-def make_header(g, tab, n, *, prefix, values=True, run_driver=True, assert_unamb=True, assert_prefixfree=False, exists_witness=False, alphabet=None, note=''):
+def make_header(g, tab, n, *, prefix, values=True, run_driver=True, assert_unamb=True, assert_prefixfree=False, exists_witness=False, alphabet=None, note='', check_first=False):
     """tab: dump of the native generator (or None when the driver is not run)"""
     cap = n + 1
     an = analyse(g, cap)
@@ -257,6 +276,13 @@ def make_header(g, tab, n, *, prefix, values=True, run_driver=True, assert_unamb
     o.append(carr('G_SYMMAX', symmax, [nr, maxlen]))
     o.append(carr('G_SUFMIN', sufmin, [nr, maxlen + 1]))
     o.append(carr('G_ORDER', an['order'], [g['nnt']]))
+    if check_first and tab is not None:
+        masks = [0] * g['nnt']
+        for e in tab['first_sets']:
+            if e['sym'][0] == 2 and e['sym'][1] < g['nnt']:
+                for x in e['first']: masks[e['sym'][1]] |= (0x80000000 if x[0] == 0 else (1 << x[1]))
+        o.append('#define LR_CHECK_FIRST 1')
+        o.append(carr('LR_FIRSTMASK', ['%du' % m for m in masks], [g['nnt']], 'unsigned'))
     if alphabet is not None:
         o.append('#define LR_ALPHABET 1\n#define LR_NALPHA %d' % len(alphabet))
         o.append(carr('LR_ALPHA', list(alphabet), [len(alphabet)]))
@@ -360,8 +386,10 @@ def view_stubs(cap_int):
 
 
 def driver_uses_references_immediately():
-    """textual guard for the by-value table view of harness/lr_parse.cpp: inside LRParser::parse no reference or pointer is bound to a table row, a
-    table cell, a stack top or the current token, and nothing is assigned through one.  Returns (ok, reason)."""
+    """textual guard for the by-value view of harness/lr_parse.cpp (tables, stacks, current token): inside LRParser::parse every use of the tables
+    (action, jump), of the stacks (states, values, popped) and of the input cursor (ip) has one of the forms listed below - each reads or writes
+    through the container call it is part of and keeps no reference.  Anything else (a reference bound to a cell, an algorithm called on a stack, an
+    assignment through back() ...) makes the view inapplicable; the obligations then run in plain mode with smaller bounds.  Returns (ok, reason)."""
     src = open(os.path.join(fw.REPO, 'Compiler/include/ParserGenerator/lrparser.hpp')).read()
     m = re.search(r'LRParser<SemanticType, TokenType>::parse\(Iterable in\)\s*\{', src)
     if not m: return False, 'LRParser::parse(Iterable in) not found in lrparser.hpp'
@@ -369,13 +397,20 @@ def driver_uses_references_immediately():
     while i < len(src) and depth:
         depth += {'{': 1, '}': -1}.get(src[i], 0); i += 1
     body = re.sub(r'//[^\n]*', '', src[m.end():i])
-    if re.search(r'(auto|int|Action|SemanticType|TokenType|\w+>)\s*(const\s*)?[&*]\s*\w+\s*(=|\{|\()', body):
-        return False, 'parse() binds a reference or pointer'
-    for mm in re.finditer(r'\b(action|jump)\s*\[', body):
-        tail = body[mm.start():mm.start() + 80]
-        if not re.match(r'action\[\w+\]\[\w+\]\.(t|state|beta|left)\b(?!\s*=[^=])|action\[\w+\]\[\w+\]\.action\(\w+\)|action\[\w+\]\.size\(\)|jump\[\w+\]\[\w+\]\s*[);,]', tail):
-            return False, 'unexpected use of a table: ' + tail.split('\n')[0][:60]
-    if re.search(r'\.back\(\)\s*=[^=]|\*\s*ip\s*=[^=]', body): return False, 'parse() assigns through back() or *ip'
+    body = re.sub(r'\s+', ' ', body)
+    allowed = [
+        r'auto ip = in\.begin\(\);', r'std::vector<int> states = \{0\};', r'std::vector<SemanticType> values = \{\};', r'std::vector<SemanticType> popped = \{\};',
+        r'states\.back\(\)(?! ?=[^=])', r'values\.back\(\)(?! ?=[^=])', r'(states|values|popped)\.push_back\(', r'(states|values)\.pop_back\(\)',
+        r'translator\(\*ip\)', r'creator\(\*ip\)', r'ip\+\+;',
+        r'action\[\w+\]\[\w+\]\.(t|state|beta|left)\b(?! ?=[^=])', r'action\[\w+\]\[\w+\]\.action\(popped\)', r'action\[\w+\]\.size\(\)', r'jump\[\w+\]\[\w+\](?! ?=[^=])',
+    ]
+    rest = body
+    for pat in allowed: rest = re.sub(pat, ' ', rest)
+    left = re.search(r'\b(states|values|popped|ip|action|jump|in)\b(?!\w)', re.sub(r'\bint\b|\(int\)|Action::\w+|ParseResult\w*|"[^"]*"', ' ', rest))
+    if left:
+        ctx = rest[max(0, left.start() - 30):left.end() + 30]
+        return False, 'use of %s outside the forms the view models: ...%s...' % (left.group(1), ctx.strip())
+    if re.search(r'[&*] ?\w+ ?=[^=]', re.sub(r'\*ip', ' ', rest)): return False, 'parse() binds a reference or pointer'
     return True, ''
 
 
@@ -395,26 +430,34 @@ def parse_loops(cfile, entry):
 
 # ------------------------------------------------------------------------------------------------ jobs
 def table_job(prop, tag, name, g, tab, n, wd, *, prefix, values=True, run_driver=True, assert_unamb=True, assert_prefixfree=False, exists_witness=False,
-              alphabet=None, plain=False, timeout=300, what='', words_alphabet=None, extra_bounds=''):
+              alphabet=None, plain=False, timeout=300, what='', words_alphabet=None, extra_bounds='', check_first=False, generated_oracle=True):
     """one CBMC job over harness/lr_parse.cpp for one natively generated parser"""
     hdr, info = make_header(g, tab if run_driver else None, n, prefix=prefix, values=values, run_driver=run_driver, assert_unamb=assert_unamb,
-                            assert_prefixfree=assert_prefixfree, exists_witness=exists_witness, alphabet=alphabet, note=name)
+                            assert_prefixfree=assert_prefixfree, exists_witness=exists_witness, alphabet=alphabet, note=name, check_first=check_first)
     dpath = os.path.join(wd, 'lr_%s.hpp' % re.sub(r'\W', '_', name))
     open(dpath, 'w').write(hdr)
-    steps = depth = 0; loopy = False
+    gen = gen_oracle(g, n, values=values, all_nts=check_first) if generated_oracle else None
+    opath = None
+    if gen is not None:
+        opath = os.path.join(wd, 'lr_%s.oracle.hpp' % re.sub(r'\W', '_', name)); open(opath, 'w').write(gen[0])
+    steps = depth = 0; loopy = False; loop_word = None
     if run_driver:
         al = words_alphabet if words_alphabet is not None else [t for t in range(tab['max_used_terminal'] + 1) if t != g['eof']]
         if len(al) ** n <= 5000:
             for w in words(al, n):
                 st, dp, acc = drive(tab, w + [g['eof']])
-                steps = max(steps, st); depth = max(depth, dp); loopy = loopy or acc is None
+                if acc is None and st >= 400:
+                    loopy = True; loop_word = loop_word if loop_word is not None else w
+                    continue
+                steps = max(steps, st); depth = max(depth, dp)
         else:
             steps = 0
-        if loopy or not steps: steps = max(steps, 6 * n + 10); depth = max(depth, n + 3)
+        if not steps: steps = 6 * n + 10; depth = max(depth, n + 3)
     cap_int = max(n + 2, depth + 2, (tab or {}).get('jump_width', 1), 4)
     defines = ['LR_DATA="%s"' % dpath, 'LR_TAG="%s"' % tag, 'LR_CAP_INT=%d' % cap_int, 'LR_CAP_STATES=%d' % ((tab['nstates'] if plain else 1) if tab else 1),
                'LR_CAP_WIDTH=%d' % ((tab['action_width'] if plain else 1) if tab else 1), 'MINISTL_STR_CAP=12', 'MINISTL_MAP_CAP=1', 'MINISTL_VEC_CAP=2', 'MINISTL_FN_CAP=8']
     if plain: defines.append('LR_PLAIN=1')
+    if opath: defines.append('LR_ORACLE="%s"' % opath)
     gl = max(n + 2, info['maxlen'] + 2, len(g['rules']) + 1, g['nnt'] + 1, info['rounds'] + 1)
     j = fw.Job(name, H_PARSE, 'h_lr_parse', tus=[], defines=defines, caps='caps_lr.hpp', unwind=gl, tags=[tag], native=False, timeout=timeout,
                ub_pat=r'^_ZN4Theo8LRParser|ministl: .*\((UB|throws)\)', stubs=None if plain else view_stubs(cap_int),
@@ -422,7 +465,8 @@ def table_job(prop, tag, name, g, tab, n, wd, *, prefix, values=True, run_driver
                (n, '' if alphabet is None else ' over %d token kinds' % len(alphabet), steps + 1, cap_int, extra_bounds),
                functions=['Theo::LRParser<int,int>::parse', 'Theo::LRParser::generateParseTables (native, per instance)', 'Theo::elements / hull / jump (native, per instance)'],
                build_key=('lr', name), extra=['--object-bits', '10'])
-    j.lr = {'grammar': g, 'prefix': prefix, 'n': n, 'steps': steps, 'maxlen': info['maxlen'], 'run_driver': run_driver, 'plain': plain, 'eof': g['eof'], 'header': dpath}
+    j.lr = {'grammar': g, 'prefix': prefix, 'n': n, 'steps': steps, 'maxlen': info['maxlen'], 'run_driver': run_driver, 'plain': plain, 'eof': g['eof'], 'header': dpath, 'loop_word': loop_word, 'oracle_terms': gen[1] if gen else None,
+            'maxbeta': max([c[3] for row in tab['action'] for c in row if c[0] == 1] + [0]) if tab else 0, 'cost': (tab['nstates'] if tab and run_driver else 1) * (n + 1)}
     return j
 
 
@@ -439,14 +483,15 @@ def run_parallel(jobs, wd, workers=8):
             pop, main = parse_loops(j.cfile, j.entry)
             if pop is None or main is None:
                 j.error = 'loops of the driver not identified in the generated C (pop loop %s, main loop %s)' % (pop, main); return j
-            uws[pop] = j.lr['maxlen'] + 2; uws[main] = j.lr['steps'] + 2
+            uws[pop] = j.lr.get('maxbeta', j.lr['maxlen']) + 2; uws[main] = j.lr['steps'] + 2
         j.result = e1.cbmc(j.cfile, j.entry, unwind=j.unwind, unwindset=uws, timeout=j.timeout, mem_gb=j.mem_gb, extra=j.extra)
         for suf in ('.linked.ll', '.opt.ll', '.harness.ll'):
             try: os.remove(j.cfile[:-2] + suf)
             except OSError: pass
         return j
+    order = sorted(enumerate(jobs), key=lambda ij: -(getattr(ij[1], 'lr', None) or {}).get('cost', 0))       # expensive instances first (no long tail)
     with concurrent.futures.ThreadPoolExecutor(max_workers=workers) as ex:
-        list(ex.map(one, enumerate(jobs)))
+        list(ex.map(one, order))
     return jobs
 
 
@@ -479,7 +524,7 @@ def ref_first_string(F, string):
     return out
 
 
-def check_first(g, tab):
+def compare_first(g, tab):
     """compare the FIRST sets the real generator computed (on the grammar augmented by S' -> S and E -> eof, as elements() does) with the reference.
     Returns a list of differences (empty: equal)."""
     nnt = g['nnt']
@@ -501,3 +546,687 @@ def check_first(g, tab):
         want = ref_first_string(F, string); have = {dec(x) for x in e['first']}
         if want != have: diffs.append({'symbol': 'first(%s)' % ' '.join(map(str, string)), 'generator': sorted(map(str, have)), 'reference': sorted(map(str, want))})
     return diffs
+
+
+# ------------------------------------------------------------------------------------------------ C13 obligations
+WORKERS = int(os.environ.get('VERIF_LR_WORKERS', '0')) or max(4, min(14, (os.cpu_count() or 8) - 2))
+
+
+def c13_family(tier, seed):
+    fam = family(2)
+    note = 'all %d grammars with <= 2 nonterminals, <= 2 alternatives each, <= 2 symbols per alternative over 2 terminals, up to renaming of terminals' % len(fam)
+    if tier == 'quick':
+        rnd = random.Random(seed); full = len(fam)
+        fam = rnd.sample(fam, 9000)
+        note = 'seeded sample of 9000 of the %d grammars with <= 2 nonterminals, <= 2 alternatives each, <= 2 symbols per alternative over 2 terminals (up to renaming); thorough enumerates all' % full
+    else:
+        extra = random_family(3, 12000, seed)
+        fam = fam + extra
+        note += ' + %d seeded random grammars with an alternative of 3 symbols (that family has about 7 million members)' % len(extra)
+    return fam, note
+
+
+def c13_obligations(prop, tier, seed, wd, out):
+    """native generation for the family (both modes), FIRST comparison for every member, solver jobs for a stratified sample of the conflict-free ones"""
+    n = 4 if tier == 'quick' else 6
+    per_mode = int(os.environ.get('VERIF_C13_PER_MODE', '0')) or (34 if tier == 'quick' else 260)
+    view_ok, why = driver_uses_references_immediately()
+    if not view_ok:
+        # the driver no longer uses its tables/stacks in the forms the by-value view models: every job runs in plain mode (tables in the real private
+        # vectors, read through the container model) - about 50 times more expensive per driver iteration, hence shorter inputs and fewer grammars
+        n = 2; per_mode = min(per_mode, 12)
+    fam, fam_note = c13_family(tier, seed)
+    cov = {'table_access': 'by-value view of the dumped tables' if view_ok else 'plain mode (tables in the private vectors, container model): table view not applicable - %s' % why, 'family': fam_note, 'grammars_generated_natively': 0, 'modes': {}, 'first_sets_compared': 0, 'first_strings_compared': 0}
+    jobs = []; meta = {}; loops = []
+    first_bad = []
+    for prefix in (False, True):
+        mode = 'prefix' if prefix else 'full'
+        tabs = native_dump(wd, [gline(g, prefix) for g in fam], workers=WORKERS)
+        cov['grammars_generated_natively'] += len(tabs)
+        crashed = [(g, t) for g, t in zip(fam, tabs) if t.get('crash')]
+        for g, t in crashed[:5]:
+            out.inconclusive.append('lr tables: the native generator did not return for %s in %s mode (rc %s)' % (gtext(g), mode, t.get('rc')))
+        cands = []
+        for g, t in zip(fam, tabs):
+            if t.get('crash'): continue
+            if not prefix:
+                d = compare_first(g, t)
+                cov['first_sets_compared'] += 1; cov['first_strings_compared'] += len(t.get('first_strings', []))
+                if d: first_bad.append((g, d))
+            if t['conflicts']: continue
+            al = [k for k in range(t['max_used_terminal'] + 1) if k != g['eof']]
+            acc = sum(1 for w in words(al, 3) if drive(t, w + [g['eof']], 60)[2])
+            f = features(g) | {'lang:' + ('rich' if 3 <= acc <= 12 else 'poor')}
+            cands.append({'g': g, 'tab': t, 'features': f})
+        nontrivial = [c for c in cands if 'lang:rich' in c['features'] and (view_ok or c['tab']['nstates'] <= 8)]
+        trivial = [c for c in cands if 'lang:rich' not in c['features'] and (view_ok or c['tab']['nstates'] <= 8)]
+        k_triv = max(2, per_mode // 8)
+        sel = select(nontrivial, per_mode - k_triv, seed) + select(trivial, k_triv, seed)
+        cov['modes'][mode] = {'conflict_free': len(cands), 'with_conflicts': len(tabs) - len(cands) - len(crashed), 'validated_by_solver': len(sel)}
+        if not cands:
+            out.inconclusive.append('lr tables: the generator reported a conflict for every grammar of the family in %s mode: nothing to validate (vacuous)' % mode)
+        for i, c in enumerate(sel):
+            name = 'lr.%s.%d' % (mode, i)
+            j = table_job(prop, prop, name, c['g'], c['tab'], n, wd, prefix=prefix, check_first=True, timeout=280 if tier == 'quick' else 900, plain=not view_ok,
+                          what='%s mode, %s: real driver on the natively generated tables vs derivation table, all inputs' % (mode, gtext(c['g'])))
+            if j.lr.get('loop_word') is not None:
+                loops.append((j, c)); continue
+            jobs.append(j); meta[name] = c
+        # cross-check of the table view on a small instance: same obligation with the tables in the real private vectors
+        small = [c for c in nontrivial if c['tab']['nstates'] <= 6 and any(len(r) >= 2 for _, r in c['g']['rules'])]
+        if small and view_ok:
+            c = select(small, 1, seed)[0]; name = 'lr.%s.plain' % mode
+            j = table_job(prop, prop, name, c['g'], c['tab'], 2, wd, prefix=prefix, plain=True, timeout=280 if tier == 'quick' else 900,
+                          what='%s mode, %s: as above with the tables stored in the parser object\'s private action/jump vectors and read through the container model (cross-check of the table view)' % (mode, gtext(c['g'])))
+            jobs.append(j); meta[name] = c
+    run_parallel(jobs, wd, workers=WORKERS)
+    nv0 = len(out.violations)
+    fw.classify(prop, jobs, wd, out)
+    confirm_violations(prop, out, nv0, {j.name: j for j in jobs}, wd)
+    # tables reported conflict-free on which the (Python rendering of the) driver did not stop within 400 steps: replayed natively with the real driver
+    for j, c in loops[:4]:
+        body = {'kind': 'parse', 'grammar': c['g'], 'prefix': j.lr['prefix'], 'word': j.lr['loop_word'], 'assertion': 'C13: the driver terminates on conflict-free tables', 'job': j.name}
+        rep = replay_grammar(wd, body); body['native_replay'] = rep
+        rp = write_replay(prop, 'lr', body)
+        out.obligations += 1
+        if rep.get('reproduced'):
+            out.violations.append({'property': prop, 'job': j.name, 'assertion': 'C13: the driver terminates and decides membership on tables reported conflict-free (%s, input %s)' % (gtext(c['g']), j.lr['loop_word']), 'replay': rp, 'confirmed': True, 'cex': {}})
+        else:
+            out.inconclusive.append('%s: the table walk did not stop within 400 steps but the native driver behaved as the reference says (replay %s)' % (j.name, rp))
+    # FIRST differences are native facts about the real generator: report each (at most 3) as a violation with a native replay file
+    for g, d in first_bad[:3]:
+        rp = write_replay(prop, 'first', {'kind': 'first', 'grammar': g, 'prefix': False, 'differences': d[:6]})
+        out.violations.append({'property': prop, 'job': 'lr.first', 'assertion': 'C13: FIRST sets equal their textbook definition (%s: %s)' % (gtext(g), json.dumps(d[0])), 'replay': rp, 'confirmed': True, 'cex': {}})
+    out.obligations += cov['first_sets_compared']; out.discharged += cov['first_sets_compared'] - len(first_bad)
+    cov['programs'] = sum(m['validated_by_solver'] for m in cov['modes'].values())
+    cov['first_set_differences'] = len(first_bad)
+    cov['input_bound'] = n
+    return cov
+
+
+# ------------------------------------------------------------------------------------------------ replay
+def write_replay(prop, tag, body):
+    os.makedirs(fw.REPLAYS, exist_ok=True)
+    h = hashlib.md5(json.dumps(body, sort_keys=True, default=str).encode()).hexdigest()[:10]
+    path = os.path.join(fw.REPLAYS, '%s-%s-%s.json' % (prop, tag, h))
+    json.dump(dict(body, property=prop, module=prop.lower()), open(path, 'w'), indent=1)
+    return path
+
+
+def native_parse(wd, g, prefix, w):
+    """the real generator and the real driver on one concrete end-marked input (own process, time limit: tables with conflicts may loop)"""
+    d = native_dump(wd, [gline(g, prefix, w)], timeout=20, workers=1)[0]
+    return d
+
+
+def replay_grammar(wd, r):
+    """re-run one counterexample natively: real tables + real driver on the witness input vs the Python derivation-table reference"""
+    g = r['grammar']; g = dict(g, rules=[(l, [tuple(s) for s in rr]) for l, rr in g['rules']])
+    prefix = r['prefix']
+    if r.get('kind') == 'first':
+        d = native_dump(wd, [gline(g, False)], workers=1)[0]
+        diffs = compare_first(g, d) if not d.get('crash') else [{'crash': d}]
+        return {'reproduced': bool(diffs), 'differences': diffs[:6]}
+    w = r['word']
+    d = native_parse(wd, g, prefix, w + [g['eof']])
+    ref = reference(g, prefix, w)
+    if d.get('crash'):
+        return {'reproduced': True, 'native': 'the native driver crashed or did not terminate (rc %s)' % d.get('rc'), 'reference': ref}
+    res = {'native': d['parse'], 'reference': ref, 'conflicts_reported': len(d['conflicts'])}
+    bad = []
+    if not d['conflicts']:
+        if d['parse']['accept'] != ref['accept']: bad.append('acceptance differs')
+        elif ref['accept'] and ref['value'] is not None and d['parse']['value'] != ref['value']: bad.append('returned value is not the fold of the derivation')
+        if ref['ambiguous']: bad.append('a prefix of the input has two derivations although no conflict was reported')
+    res['reproduced'] = bool(bad); res['why'] = bad
+    return res
+
+
+def confirm_violations(prop, out, first, jobs, wd):
+    """alarm rule (DESIGN 2.6): a solver counterexample of an lr job becomes a violation only after the real generator + driver, run natively on the
+    witness input, disagree with the reference; otherwise it is an encoding disagreement (inconclusive)"""
+    keep = out.violations[:first]
+    for v in out.violations[first:]:
+        j = jobs.get(v['job'])
+        if j is None or not getattr(j, 'lr', None): keep.append(v); continue
+        cex = v.get('cex', {})
+        n = cex.get('CEX_n', 0) or 0
+        w = [int(x) for x in (cex.get('CEX_w') or [])[:n]]
+        w = [x for x in w if x != j.lr['eof']]
+        body = {'kind': 'parse', 'grammar': j.lr['grammar'], 'prefix': j.lr['prefix'], 'word': w, 'assertion': v['assertion'], 'job': v['job'],
+                'solver': {k: cex.get(k) for k in ('CEX_accept', 'CEX_value', 'CEX_in_lang', 'CEX_oracle_value', 'CEX_oracle_count', 'CEX_oracle_len')}}
+        if j.lr.get('pattern') is not None: body['pattern'] = j.lr['pattern']; body['kind'] = 'pattern'
+        try:
+            rep = (replay_pattern if body['kind'] == 'pattern' else replay_grammar)(wd, body)
+        except Exception as ex:
+            rep = {'reproduced': False, 'error': str(ex)[:300]}
+        body['native_replay'] = rep
+        try: os.remove(v['replay'])
+        except OSError: pass
+        v['replay'] = write_replay(prop, 'lr', body)
+        if rep.get('reproduced'):
+            v['confirmed'] = True; keep.append(v)
+        else:
+            out.disagreements += 1
+            out.inconclusive.append('%s: counterexample for "%s" did not reproduce natively (encoding disagreement; replay %s)' % (v['job'], v['assertion'][:80], v['replay']))
+    out.violations[:] = keep
+
+
+C13_ASSUMPTIONS = [
+    'translation validation: hull/jump/elements/generateParseTables run natively on every grammar of the enumerated family; their code is judged through the tables and FIRST sets they produce, it is not executed symbolically (DESIGN.md 1 item 5)',
+    'the grammar (structure and symbols) is enumerated/sampled, the input is symbolic: all end-marked inputs up to the length bound over terminals 0..max_used_terminal, for every selected grammar, in full and in prefix mode',
+    'oracle: derivation table (CYK-style chart with saturating derivation counts {0,1,>=2} and folded values) over the symbolic input, same-span fixpoint capped at 2*#nonterminals+2 rounds (exact for saturated counts); cross-validated natively against an independent Python implementation',
+    'semantic actions are Goedel folds (value = ((rule id+1)*31 + c1)*31 + c2 ... mod 2^31 over the popped values, leaf = token+1): equality of values is equality of derivation trees up to collisions mod 2^31',
+    'table view: the driver reads its tables and stacks through by-value accessors over the dumped constant tables instead of the container model\'s nested pointer selection (textual guard on parse(): every table reference is used immediately; one plain-mode job per mode cross-checks the view)',
+    'FIRST: the sets computed by the real calculateFirstSets/first are compared, natively, with the textbook least fixpoint for EVERY generated grammar and every string of <= 2 symbols; the solver additionally checks containment against the derivation table. A symbolic run of calculateFirstSets is not part of the verdict: with the flat container model it does not finish (one symbolic symbol: no end of symbolic execution in 600 s)',
+]
+C13_EXPLANATION = ('Per grammar of the family the real table generator runs natively in full and in prefix mode. For a stratified sample of the grammars it reports conflict-free, '
+                   'one solver query each executes the REAL LRParser<int,int>::parse on the generated tables for all inputs up to the bound and asserts: accept <=> the input (prefix mode: some prefix) '
+                   'is in L(G) according to the derivation table; the returned value is the fold of the unique derivation (rule actions applied once each, last symbol first); no word has two derivations '
+                   '(so an ambiguous grammar must have been given a conflict); the driver never violates a container precondition; the generated FIRST sets contain what the derivation table requires. '
+                   'FIRST sets and first() of all strings of up to two symbols equal the textbook least fixpoint for every generated grammar (native comparison, exhaustive over the family).')
+
+
+# ------------------------------------------------------------------------------------------------ encoder validation (never a verdict)
+def oracle_selftest(wd, grammars, n, alphabet=None, values=True, maxwords=400, seed=0, generated=True, wordgen=None):
+    """the derivation-table oracle of harness/lr_parse.cpp, compiled natively, against the independent Python chart (cyk) on concrete words.
+    Returns a list of disagreements."""
+    bad = []
+    rnd = random.Random(seed)
+    for gi, g in enumerate(grammars):
+        hdr, info = make_header(g, None, n, prefix=False, values=values, run_driver=False, note='oracle self-test')
+        hp = os.path.join(wd, 'selftest_%d.hpp' % gi); open(hp, 'w').write(hdr)
+        exe = os.path.join(wd, 'selftest_%d' % gi)
+        odef = []
+        if generated:
+            gen = gen_oracle(g, n, values=values, all_nts=False)
+            if gen is None: bad.append({'grammar': gi, 'build': 'generated oracle too large'}); continue
+            op = os.path.join(wd, 'selftest_%d.oracle.hpp' % gi); open(op, 'w').write(gen[0]); odef = ['-DLR_ORACLE="%s"' % op]
+        p = subprocess.run(['g++', '-std=c++20', '-O1', '-w', '-DLR_ORACLE_SELFTEST=1', '-DLR_DATA="%s"' % hp] + odef +
+                           ['-I' + fw.REPO, '-I' + os.path.join(fw.REPO, 'Compiler/include'), H_PARSE, '-o', exe], stdout=subprocess.PIPE, stderr=subprocess.PIPE, text=True)
+        if p.returncode != 0: bad.append({'grammar': gtext(g) if g['nnt'] <= 10 else gi, 'build': p.stderr[-600:]}); continue
+        al = alphabet or [t for t in range(g['eof'])]
+        ws = list(words(al, n)) if len(al) ** n <= maxwords else [[rnd.choice(al) for _ in range(rnd.randint(0, n))] for _ in range(maxwords)]
+        if wordgen: ws = wordgen(g, rnd, maxwords)
+        inp = '\n'.join('%d %s' % (len(w), ' '.join(map(str, w))) for w in ws) + '\n'
+        q = subprocess.run([exe], input=inp, stdout=subprocess.PIPE, text=True)
+        lines = q.stdout.splitlines()
+        for w, ln in zip(ws, lines):
+            cnt, value = cyk(g, w)
+            got = [tuple(map(int, x.split(':'))) for x in ln.split()]
+            for j in range(len(w) + 1):
+                c = cnt[g['start']][0][j]
+                if got[j][0] != c or (values and c == 1 and got[j][1] != value(g['start'], 0, j)):
+                    bad.append({'grammar': gtext(g) if g['nnt'] <= 10 else gi, 'word': w, 'prefix': j, 'harness': got[j], 'python': (c, value(g['start'], 0, j) if c == 1 else None)}); break
+    return bad
+
+
+# ================================================================================================ C12: macro patterns
+def token_types():
+    """Token::Type enumerators of /repo/Compiler/include/token.hpp -> numeric values"""
+    src = open(os.path.join(fw.REPO, 'Compiler/include/token.hpp')).read()
+    m = re.search(r'enum Type \{(.*?)\};', src, re.S)
+    out = {}; v = 0
+    for item in m.group(1).split(','):
+        item = re.sub(r'//[^\n]*', '', item).strip()
+        if not item: continue
+        mm = re.match(r'(\w+)\s*(?:=\s*(\d+))?$', item)
+        if mm.group(2) is not None: v = int(mm.group(2))
+        out[mm.group(1)] = v; v += 1
+    return out
+
+
+# FIXED transcription of the statement grammar that MacroDetector's constructor builds (macro.cpp, G.add(...) calls), at the pinned commit.
+# Nonterminals in creation order; right sides: 'T:<Token::Type>' terminal, otherwise a nonterminal name.
+STMT_NTS = ['ID', 'INT', 'VALUE', 'ARGS', 'P', 'STATEMENT', 'ATOMIC_P', 'MACRO']
+STMT_RULES = [
+    ('ID', ['T:ID']), ('INT', ['T:INT']), ('VALUE', ['ID']), ('VALUE', ['INT']), ('VALUE', ['T:RUN', 'ID', 'T:WITH', 'ARGS', 'T:END']),
+    ('ARGS', ['VALUE']), ('ARGS', ['ARGS', 'T:ARGSEP', 'VALUE']), ('P', ['P', 'T:PROGSEP', 'STATEMENT']), ('P', ['STATEMENT']),
+    ('STATEMENT', ['ID', 'T:LABELDEC', 'ATOMIC_P']), ('STATEMENT', ['ATOMIC_P']), ('ATOMIC_P', ['ID', 'T:ASSIGN', 'VALUE']),
+    ('ATOMIC_P', ['T:LOOP', 'ID', 'T:DO', 'P', 'T:END']), ('ATOMIC_P', ['T:WHILE', 'ID', 'T:NEQ_ZERO', 'T:DO', 'P', 'T:END']), ('ATOMIC_P', ['T:GOTO', 'ID']),
+    ('ATOMIC_P', ['T:IF', 'ID', 'T:EQ', 'INT', 'T:THEN', 'T:GOTO', 'ID']), ('ATOMIC_P', ['T:STOP']),
+]
+SLOT_NT = {'ID_TEMP': 'ID', 'INT_TEMP': 'INT', 'ARGS_TEMP': 'ARGS', 'PROG_TEMP': 'P', 'VALUE_TEMP': 'VALUE'}
+SLOTS = ['ID_TEMP', 'INT_TEMP', 'VALUE_TEMP', 'ARGS_TEMP', 'PROG_TEMP']
+LITERALS = ['ID', 'INT', 'PROGSEP', 'ARGSEP', 'NV_ID', 'PAREN_OPEN', 'PAREN_CLOSE', 'LOOP', 'END', 'DO']
+SHOW = {'ID_TEMP': '<ID>', 'INT_TEMP': '<INT>', 'VALUE_TEMP': '<V>', 'ARGS_TEMP': '<ARGS>', 'PROG_TEMP': '<P>', 'ID': 'x', 'INT': '1', 'PROGSEP': ';', 'ARGSEP': ',', 'NV_ID': '+',
+        'PAREN_OPEN': '(', 'PAREN_CLOSE': ')', 'LOOP': 'LOOP', 'END': 'END', 'DO': 'DO'}
+
+
+def transcription_matches_source():
+    """textual comparison of the fixed transcription with the G.add(...) calls and the slot mapping in macro.cpp.  Returns (ok, reason)."""
+    src = open(os.path.join(fw.REPO, 'Compiler/src/macro.cpp')).read()
+    a = src.find('MacroDetector(MacroDefinition md)')
+    b = src.find('std::vector<ParseError> getErrors()')
+    if a < 0 or b < 0: return False, 'MacroDetector constructor not found'
+    body = re.sub(r'//[^\n]*', '', src[a:b]); flat = re.sub(r'\s+', ' ', body)
+    m = re.search(r'auto ((?:\w+ = G\.createNonTerminal\(\),? ?)+);', flat)
+    if not m: return False, 'nonterminal declarations not found'
+    nts = re.findall(r'(\w+) = G\.createNonTerminal\(\)', m.group(1))
+    if nts != STMT_NTS: return False, 'nonterminals %s differ from the transcription %s' % (nts, STMT_NTS)
+    rules = []
+    for mm in re.finditer(r'G\.add\( ?(\w+) >> (.*?), ?default_accumulator\)', flat):
+        lhs, rhs = mm.group(1), mm.group(2).strip()
+        if rhs.startswith('('):            # a parenthesised comma list (operator, on symbols): strip the outer pair when it encloses the whole right side
+            d = 0
+            for i, ch in enumerate(rhs):
+                d += {'(': 1, ')': -1}.get(ch, 0)
+                if d == 0: break
+            if i == len(rhs) - 1: rhs = rhs[1:-1]
+        parts = [x.strip() for x in re.split(r',(?![^()]*\))', rhs)]
+        syms = []
+        for x in parts:
+            t = re.fullmatch(r'\(?term\(Token::(\w+)\)\)?', x)
+            syms.append('T:' + t.group(1) if t else x.strip('() '))
+        rules.append((lhs, syms))
+    if rules != STMT_RULES:
+        diff = [r for r in rules if r not in STMT_RULES] + [r for r in STMT_RULES if r not in rules]
+        return False, 'G.add calls differ from the transcription: %s' % diff[:3]
+    if not re.search(r'G\.add\( ?MACRO >> sym,', flat): return False, 'MACRO >> sym rule not found'
+    for tok, nt in SLOT_NT.items():
+        if not re.search(r'case Token::%s: sym\.push_back\(%s\); break;' % (tok, nt), flat): return False, 'slot mapping of %s changed' % tok
+    if not re.search(r'default: sym\.push_back\(term\(t\.t\)\); break;', flat): return False, 'literal mapping changed'
+    if not re.search(r'LRParser<Accumulation, Token>\( ?G, true, transformer, creator, MACRO, Grammar::Symbol::Terminal\(Token::T_EOF\)\)', flat):
+        return False, 'parser construction (prefix mode, start MACRO, end marker T_EOF) changed'
+    return True, ''
+
+
+def pattern_grammar(pat, tt):
+    """grammar (oracle + G-mode cross-check) of the pattern language: the transcribed statement grammar + MACRO -> pattern"""
+    idx = {n: i for i, n in enumerate(STMT_NTS)}
+    def sym(x): return T(tt[x[2:]]) if x.startswith('T:') else N(idx[x])
+    rules = [(idx[l], [sym(x) for x in r]) for l, r in STMT_RULES]
+    rules.append((idx['MACRO'], [N(idx[SLOT_NT[p]]) if p in SLOT_NT else T(tt[p]) for p in pat]))
+    return {'nnt': len(STMT_NTS), 'start': idx['MACRO'], 'eof': tt['T_EOF'], 'rules': rules}
+
+
+def pattern_text(pat): return ' '.join(SHOW.get(p, p) for p in pat)
+
+
+def pline(pat, tt, word=None):
+    txt = {'NV_ID': '+', 'ID': 'x', 'INT': '1'}
+    s = 'P ' + ' '.join('%d:%s' % (tt[p], txt.get(p, 'k')) for p in pat)
+    if word is not None: s += ' # ' + ' '.join(map(str, word))
+    return s
+
+
+def patterns(maxlen):
+    al = SLOTS + LITERALS
+    return [tuple(p) for n in range(1, maxlen + 1) for p in itertools.product(al, repeat=n)]
+
+
+def reachable_terminals(g):
+    seen = set(); todo = [g['start']]; ts = set()
+    while todo:
+        x = todo.pop()
+        if x in seen: continue
+        seen.add(x)
+        for l, r in g['rules']:
+            if l != x: continue
+            for t, k in r:
+                if t == 't': ts.add(k)
+                else: todo.append(k)
+    return sorted(ts), sorted(seen)
+
+
+def compress_columns(tab, keep):
+    """columns of terminals outside `keep` must be identical (they never occur in an item of a state); returns (column class per terminal, compressed action table)"""
+    act = tab['action']; w = tab['action_width']
+    cols = {}; cls = []
+    for a in range(w):
+        col = tuple(tuple(act[s][a][:4]) for s in range(len(act)))
+        key = ('k', a) if a in keep else ('o', col)
+        if key not in cols: cols[key] = len(cols)
+        cls.append(cols[key])
+    reps = {}
+    for a, c in enumerate(cls): reps.setdefault(c, a)
+    comp = [[act[s][reps[c]] for c in range(len(cols))] for s in range(len(act))]
+    return cls, comp, reps
+
+
+def max_steps(tab, alphabet, eof, n, limit=200000):
+    """largest number of iterations of the driver loop over all end-marked inputs of at most n tokens over `alphabet` (depth-first over the viable
+    prefixes, on the dumped tables); None if the exploration is cut off"""
+    act = tab['action']; jump = tab['jump']
+    best = [0]; depthmax = [1]; count = [0]
+    def run(stack, a, steps):
+        """feed token a: returns (new stack or None when the driver stops, steps)"""
+        stack = list(stack)
+        while True:
+            steps += 1
+            if steps > 2000: return None, steps
+            s = stack[-1]
+            if s < 0 or s >= len(act) or a >= len(act[s]): return None, steps
+            t, st, left, beta, rid = act[s][a]
+            if t == 0: stack.append(st); depthmax[0] = max(depthmax[0], len(stack)); return stack, steps
+            if t == 1:
+                if beta >= len(stack): return None, steps
+                del stack[len(stack) - beta:]; stack.append(jump[stack[-1]][left]); depthmax[0] = max(depthmax[0], len(stack))
+                continue
+            return None, steps
+    def dfs(stack, k, steps):
+        count[0] += 1
+        if count[0] > limit: raise OverflowError
+        _, st = run(stack, eof, steps); best[0] = max(best[0], st)
+        if k == n: return
+        for a in alphabet:
+            ns, st = run(stack, a, steps)
+            best[0] = max(best[0], st)
+            if ns is not None: dfs(ns, k + 1, st)
+    try:
+        dfs([0], 0, 0)
+    except OverflowError:
+        return None, None
+    return best[0], depthmax[0]
+
+
+C12_SPEC = os.path.join(fw.VERIF, 'spec', 'c12_rejections.json')
+
+
+def tables_equal(a, b):
+    if a['nstates'] != b['nstates'] or a['action_width'] != b['action_width'] or a['jump'] != b['jump']: return False
+    return all(ca[:4] == cb[:4] for ra, rb in zip(a['action'], b['action']) for ca, cb in zip(ra, rb)) and len(a['conflicts']) == len(b['conflicts'])
+
+
+def pattern_job(prop, name, pat, g, tabP, tabG, n, wd, *, driver, tt, claim=True, timeout=280):
+    """accepted pattern (claim=True): real driver on the detector's tables for all inputs up to n tokens + the language has no two derivations and is
+    prefix-free up to n;  rejected pattern (claim=False): search for a witness (two derivations / a word with a proper extension in the language)"""
+    reach, _ = reachable_terminals(g)
+    other = [t for t in range(tabP['max_used_terminal'] + 1) if t not in reach and t != g['eof']]
+    alphabet = reach + other[:1]
+    tab = None
+    if driver:
+        cls, comp, reps = compress_columns(tabG, set(reach) | {g['eof']})
+        # the compressed table is what the view reads; it is the full table with the identical columns of the terminals no state mentions merged
+        tab = dict(tabG, action=comp, action_width=len(comp[0]))
+    j = table_job(prop, prop, name, g, tab, n, wd, prefix=True, values=False, run_driver=driver, assert_unamb=claim, assert_prefixfree=claim, exists_witness=not claim,
+                  alphabet=alphabet if driver else reach, timeout=timeout, words_alphabet=[],
+                  what=('pattern %s (accepted): the real driver on the detector\'s own tables accepts exactly the inputs with a prefix in the pattern\'s language; no word has two derivations, no word of the language has a proper extension in it'
+                        if claim else 'pattern %s (rejected): search for a witness that no one-token-lookahead prefix recogniser exists') % pattern_text(pat))
+    if driver:
+        # column classes: the driver indexes by token type; the view maps it to the merged column
+        hdr = open(j.lr['header']).read()
+        hdr = hdr.replace('#define LR_W %d' % len(comp[0]), '#define LR_W %d\n#define LR_COLMAP 1\n%s' % (tabG['action_width'], carr('LR_COL', cls, [len(cls)], 'unsigned char')))
+        open(j.lr['header'], 'w').write(hdr)
+        st, dp = max_steps(tabG, alphabet, g['eof'], n)
+        if st is None: st, dp = 8 * n + 12, n + 4
+        j.lr['steps'] = st; cap_int = max(n + 2, dp + 2, tabG['jump_width'], 4)
+        j.defines = [d for d in j.defines if not d.startswith('LR_CAP_INT=')] + ['LR_CAP_INT=%d' % cap_int]
+        j.stubs = view_stubs(cap_int)
+        j.bounds = 'inputs of at most %d tokens + end marker over %d token kinds (every kind a state of the table mentions + one representative of the others); driver loop <= %d iterations' % (n, len(alphabet), st + 1)
+    j.lr['pattern'] = list(pat)
+    return j
+
+
+# ------------------------------------------------------------------------------------------------ generated (specialised) derivation-table oracle
+def gen_oracle(g, n, values=True, all_nts=True, max_terms=60000):
+    """The derivation table of harness/lr_parse.cpp specialised to the concrete grammar: straight-line code that contains only the (rule, span, split)
+    combinations that can contribute (pruned with the minimal / maximal yield lengths and with the cells already known to be empty), over scalars:
+      c1_X_i_j = 'X derives w[i..j)',  c2_X_i_j = '... in at least two ways',  v_X_i_j = folded value of the derivation.
+    A term (one rule, one split) derives iff all its factors do (c1 = AND), and has two derivations iff it derives and some factor has two (c2);
+    a cell derives iff some term does, and has two derivations iff some term has two or two different terms derive.  Pure Boolean logic.
+    The generic loop version of the same table (oracle_loops in the harness) costs 50-100 times more symbolic-execution steps; both, and the Python
+    chart cyk(), are compared natively on concrete words (oracle_selftest).  Returns C++ text or None if more than max_terms terms are needed."""
+    an = analyse(g, n + 1)
+    mn, mx = an['min'], an['max']
+    rules = g['rules']; nnt = g['nnt']; S = g['start']
+    def smin(s): return 1 if s[0] == 't' else mn[s[1]]
+    def smax(s): return 1 if s[0] == 't' else mx[s[1]]
+    sufmin = [[min(n + 1, sum(smin(s) for s in r[k:])) for k in range(len(r) + 1)] for _, r in rules]
+    def splits(ri, i, j):
+        r = rules[ri][1]
+        def rec(k, p):
+            if k == len(r):
+                if p == j: yield []
+                return
+            lo = p + smin(r[k]); hi = min(p + smax(r[k]), j - sufmin[ri][k + 1])
+            if k == len(r) - 1: lo = max(lo, j); hi = min(hi, j)
+            for q in range(lo, hi + 1):
+                for rest in rec(k + 1, q): yield [(r[k], p, q)] + rest
+        if j - i < sufmin[ri][0]: return
+        yield from rec(0, i)
+    # cells needed, top-down
+    need = set(); todo = [(x, 0, j) for j in range(n + 1) for x in (range(nnt) if all_nts else [S])]
+    deps = {}
+    while todo:
+        c = todo.pop()
+        if c in need: continue
+        need.add(c)
+        x, i, j = c; ts = []
+        for ri, (l, r) in enumerate(rules):
+            if l != x: continue
+            for sp in splits(ri, i, j): ts.append((ri, sp))
+        deps[c] = ts
+        for ri, sp in ts:
+            for s, p, q in sp:
+                if s[0] == 'n' and (s[1], p, q) not in need: todo.append((s[1], p, q))
+        if sum(len(v) for v in deps.values()) > max_terms: return None
+    order = {x: k for k, x in enumerate(an['order'])}
+    rounds = (2 * nnt + 2) if an['cyclic'] else 1
+    spans = sorted({(j - i, i, j) for (_, i, j) in need})
+    o = ['static void oracle() {']
+    o.append('  ' + ' '.join('const unsigned w%d = (unsigned)W[%d];' % (p, p) for p in range(n)))
+    nonzero = set(); nterms = 0; tn = [0]
+    def nm(pre, c): return '%s_%d_%d_%d' % (pre, c[0], c[1], c[2])
+    for L, i, j in spans:
+        cells = sorted([c for c in need if c[1] == i and c[2] == j], key=lambda c: order[c[0]])
+        if rounds > 1:
+            for c in cells:
+                o.append('  unsigned %s = 0u, %s = 0u%s;' % (nm('c1', c), nm('c2', c), (', %s = 0u' % nm('v', c)) if values else ''))
+                nonzero.add(c)          # same-span cells may become non-empty in a later round
+        for rd in range(rounds):
+            for c in cells:
+                ts = [(ri, sp) for ri, sp in deps[c] if all(s[0] == 't' or (s[1], p, q) in nonzero for s, p, q in sp)]
+                decl = '' if rounds > 1 else 'unsigned '
+                if not ts:
+                    if rounds == 1: continue          # structurally empty cell: never referenced (terms containing it are pruned)
+                    o.append('  %s = 0u; %s = 0u;' % (nm('c1', c), nm('c2', c))); continue
+                o.append('  { unsigned s1 = 0u, s2 = 0u%s;' % (', sv = 0u' if values else ''))
+                for ri, sp in ts:
+                    nterms += 1
+                    f1 = ['(unsigned)(w%d == %du)' % (p, s[1]) if s[0] == 't' else nm('c1', (s[1], p, q)) for s, p, q in sp] or ['1u']
+                    f2 = [nm('c2', (s[1], p, q)) for s, p, q in sp if s[0] == 'n']
+                    o.append('    { const unsigned t1 = %s; const unsigned t2 = %s;' % (' & '.join(f1), ('t1 & (%s)' % ' | '.join(f2)) if f2 else '0u'))
+                    if values:
+                        v = '%du' % (ri + 1)
+                        for s, p, q in reversed(sp):
+                            sv = '(w%d + 1u)' % p if s[0] == 't' else nm('v', (s[1], p, q))
+                            v = '((times31(%s) + %s) & 0x7fffffffu)' % (v, sv)
+                        o.append('      const unsigned m = 0u - t1; sv = ((%s) & m) | (sv & ~m);' % v)
+                    o.append('      s2 = s2 | t2 | (s1 & t1); s1 = s1 | t1; }')
+                o.append('    %s%s = s1; %s%s = s2;%s }' % ('', nm('c1', c), '', nm('c2', c), (' %s = sv;' % nm('v', c)) if values else ''))
+                nonzero.add(c)
+    # hoist declarations for the acyclic case
+    if rounds == 1:
+        decls = ['  unsigned %s = 0u, %s = 0u%s;' % (nm('c1', c), nm('c2', c), (', %s = 0u' % nm('v', c)) if values else '') for c in sorted(nonzero)]
+        o[2:2] = decls
+    for j in range(n + 1):
+        for x in (range(nnt) if all_nts else [S]):
+            c = (x, 0, j)
+            if c in nonzero:
+                o.append('  CNT[%d][0][%d] = (unsigned char)(%s + %s);' % (x, j, nm('c1', c), nm('c2', c)))
+                if values and x == S: o.append('  VAL[%d][0][%d] = %s;' % (x, j, nm('v', c)))
+    o.append('}')
+    return '\n'.join(o) + '\n', nterms
+
+
+# ------------------------------------------------------------------------------------------------ C12 obligations
+def public_verdict(wd, pat):
+    """the pattern as a DEFINE in a source text, compiled through the public API of the native build (native/theoc_dump.cpp): 'rejected' iff a
+    non-linear (MACRO_COMPILE_NON_LR) error is reported, with its location"""
+    import ctv
+    src = 'x9 := 0\nDEFINE %s AS x0 := 1 END DEFINE\nx8 := 2\n' % pattern_text(pat)
+    d = ctv.native_compile(wd, {'m': src}, 'm', tag='pub_' + hashlib.md5(src.encode()).hexdigest()[:8])
+    if d.get('crash'): return {'verdict': 'crash', 'detail': d}
+    errs = [e for e in d.get('errors', []) if 'non-linear' in e.get('msg', '')]
+    return {'verdict': 'rejected' if errs else 'accepted', 'errors': errs, 'source': src}
+
+
+def replay_pattern(wd, r):
+    """re-run one pattern counterexample natively: the real MacroDetector (constructor, getErrors, its own parser on the witness token sequence) against
+    the Python derivation-table reference, and the public API verdict"""
+    tt = token_types()
+    pat = tuple(r['pattern']); g = pattern_grammar(pat, tt)
+    w = r.get('word')
+    d = native_dump(wd, [pline(pat, tt, (w + [g['eof']]) if w is not None else None)], timeout=60, workers=1)[0]
+    if d.get('crash'): return {'reproduced': True, 'native': 'the detector crashed or did not return (rc %s)' % d.get('rc')}
+    res = {'rejected': bool(d['errors']), 'conflicts': len(d['conflicts']), 'public_api': public_verdict(wd, pat)['verdict']}
+    bad = []
+    if r.get('expected_verdict') and res['public_api'] != r['expected_verdict']: bad.append('verdict %s differs from the recorded %s' % (res['public_api'], r['expected_verdict']))
+    if w is not None:
+        ref = reference(g, True, w); res['reference'] = ref; res['native'] = d.get('parse')
+        if not d['errors']:
+            if d['parse']['accept'] != ref['accept']: bad.append('the detector\'s parser and the reference disagree on the witness input')
+            if ref['ambiguous'] or len(ref['members']) >= 2: bad.append('accepted although the input shows that the pattern is not prefix-deterministic')
+    res['reproduced'] = bool(bad); res['why'] = bad
+    return res
+
+
+def c12_obligations(prop, tier, seed, wd, out):
+    tt = token_types()
+    cov = {'programs': 0}
+    ok, why = transcription_matches_source()
+    if not ok:
+        out.inconclusive.append('C12: the statement grammar built in MacroDetector\'s constructor no longer matches the fixed transcription the oracle is written for (%s); no verdict' % why)
+        return cov
+    view_ok, why = driver_uses_references_immediately()
+    # ---- (0) symbolic: getErrors on a detector whose generation result is symbolic
+    ge = fw.Job('getErrors', H_PARSE, 'h_get_errors', tus=[], defines=['LR_GETERRORS=1', 'MINISTL_STR_CAP=12', 'MINISTL_MAP_CAP=2', 'MINISTL_VEC_CAP=3'], unwind=4, tags=[prop], native=False, timeout=280,
+                ub_pat=r'ministl: .*\((UB|throws)\)', what='real MacroDetector::getErrors on a detector object whose table-generation result is symbolic (no / one / two conflicts), pattern tokens with symbolic file and line',
+                bounds='<= 2 conflicts, 2 pattern tokens, 1-character file name', functions=['MacroDetector::getErrors'], build_key=('lr', 'getErrors'))
+    # ---- native: the real MacroDetector constructor on every pattern of the family
+    pats = patterns(2)
+    sample3 = []
+    if tier != 'quick':
+        rnd = random.Random(seed); p3 = [p for p in patterns(3) if len(p) == 3]
+        sample3 = rnd.sample(p3, int(os.environ.get('VERIF_C12_LEN3', '420')))
+    all3 = patterns(3) if (tier != 'quick' or not os.path.exists(C12_SPEC)) else pats
+    dumpsP = dict(zip(all3, native_dump(wd, [pline(p, tt) for p in all3], workers=WORKERS, chunk=60)))
+    verdict = {}
+    for p, d in dumpsP.items():
+        if d.get('crash'):
+            out.inconclusive.append('C12: the native detector did not return for pattern %s' % pattern_text(p)); continue
+        verdict[p] = 'rejected' if d['errors'] else 'accepted'
+        # native facts about getErrors on the real object: error iff conflicts, located at the first pattern token (lr_dump puts it at file m line 7)
+        e = d['errors']
+        if bool(e) != bool(d['conflicts']) or (e and not (len(e) == 1 and e[0]['non_lr'] and e[0]['file'] == 'm' and e[0]['line'] == 7)):
+            rp = write_replay(prop, 'pat', {'kind': 'pattern', 'pattern': list(p), 'note': 'getErrors disagrees with the generation result', 'errors': e, 'conflicts': len(d['conflicts'])})
+            out.violations.append({'property': prop, 'job': 'native.getErrors', 'assertion': 'C12: a pattern gets the non-linear error, at its first token, exactly when table generation reported a conflict (%s)' % pattern_text(p), 'replay': rp, 'confirmed': True, 'cex': {}})
+    cov['patterns_generated_natively'] = len(dumpsP)
+    family = [p for p in pats + sample3 if p in verdict]
+    # cross-check of the transcription on the tables: the transcribed grammar + pattern through LRParser<int,int> must give the detector's tables
+    dumpsG = dict(zip(family, native_dump(wd, [gline(pattern_grammar(p, tt), True) for p in family], workers=WORKERS, chunk=40)))
+    jobs = [ge]; info = {}
+    n_drv_small = 5 if tier == 'quick' else 6
+    for i, p in enumerate(family):
+        a, b = dumpsP[p], dumpsG[p]
+        g = pattern_grammar(p, tt)
+        if b.get('crash') or not tables_equal(a, b):
+            out.inconclusive.append('C12: pattern %s: the tables of the transcribed grammar differ from the detector\'s own tables (transcription out of date?)' % pattern_text(p)); continue
+        short = analyse(g, 14)['min'][g['start']]
+        nb = min(13, short + 4)
+        rej = verdict[p] == 'rejected'
+        nm = 'pat.%d' % i
+        info[p] = {'name': nm, 'bound': nb, 'rejected': rej, 'nstates': a['nstates']}
+        if rej:
+            j = pattern_job(prop, nm + '.witness', p, g, a, b, nb, wd, driver=False, tt=tt, claim=False); j.lr['role'] = 'witness'; jobs.append(j)
+        elif not view_ok:
+            j = pattern_job(prop, nm + '.lang', p, g, a, b, nb, wd, driver=False, tt=tt, claim=True); j.lr['role'] = 'lang'; jobs.append(j)
+        elif a['nstates'] <= 30 and nb <= 6:
+            j = pattern_job(prop, nm + '.all', p, g, a, b, max(nb, n_drv_small), wd, driver=True, tt=tt, claim=True); j.lr['role'] = 'all'; jobs.append(j)
+        else:
+            j = pattern_job(prop, nm + '.lang', p, g, a, b, nb, wd, driver=False, tt=tt, claim=True); j.lr['role'] = 'lang'; jobs.append(j)
+            j = pattern_job(prop, nm + '.driver', p, g, a, b, 5 if tier == 'quick' or a['nstates'] > 60 else 6, wd, driver=True, tt=tt, claim=False); j.lr['role'] = 'driver'
+            j.defines = [d for d in j.defines]; jobs.append(j)
+    if not view_ok:
+        out.inconclusive.append('C12: the by-value table view does not apply to this driver (%s): accepted patterns are not validated against the driver' % why)
+    # the driver-only jobs must not carry the EXISTS obligation: rewrite their headers
+    for j in jobs:
+        if getattr(j, 'lr', None) and j.lr.get('role') == 'driver':
+            h = open(j.lr['header']).read().replace('#define LR_EXISTS_WITNESS 1', '#define LR_EXISTS_WITNESS 0'); open(j.lr['header'], 'w').write(h)
+    run_parallel(jobs, wd, workers=WORKERS)
+    claim_jobs = [j for j in jobs if not (getattr(j, 'lr', None) and j.lr.get('role') == 'witness')]
+    nv0 = len(out.violations)
+    fw.classify(prop, claim_jobs, wd, out)
+    confirm_violations(prop, out, nv0, {j.name: j for j in claim_jobs}, wd)
+    times = {}
+    for j in jobs:
+        if j.result is not None:
+            t = times.setdefault((getattr(j, 'lr', None) or {}).get('role', 'getErrors'), [0, 0.0, 0.0]); t[0] += 1; t[1] += j.result.wall; t[2] = max(t[2], j.result.wall)
+    cov['job_seconds'] = {k: {'jobs': v[0], 'total': round(v[1]), 'max': round(v[2], 1)} for k, v in times.items()}
+    # ---- rejected patterns: explained by a witness inside the bound, or not
+    explained = []; unexplained = []
+    for j in jobs:
+        if not (getattr(j, 'lr', None) and j.lr.get('role') == 'witness'): continue
+        p = tuple(j.lr['pattern'])
+        if j.error or j.result is None or j.result.status != 'done':
+            out.inconclusive.append('%s: witness search gave no answer (%s)' % (j.name, j.error or j.result.status)); continue
+        out.queries += 1; out.solver_s += j.result.wall; out.max_rss = max(out.max_rss, j.result.rss_mb)
+        ex = [v for v in j.result.props.values() if '(EXISTS)' in v['description']]
+        wit = [v for v in j.result.props.values() if v['description'].startswith('WITNESS')]
+        bad = [v for v in j.result.props.values() if v['status'] == 'FAILURE' and ('(model bound)' in v['description'] or 'unwinding assertion' in v['description'])]
+        if not ex or not wit or wit[0]['status'] != 'FAILURE' or bad:
+            out.inconclusive.append('%s: witness search not conclusive' % j.name); continue
+        out.witness_ok += 1
+        (explained if ex[0]['status'] == 'FAILURE' else unexplained).append(p)
+        if ex[0]['status'] == 'FAILURE' and len(out.samples) < 12:
+            cex = fw.cex_values(ex[0].get('trace')); nw = cex.get('CEX_n', 0)
+            out.samples.append({'obligation': j.name, 'what': j.what, 'bounds': j.bounds, 'wall_s': round(j.result.wall, 1), 'witness_tokens': (cex.get('CEX_w') or [])[:nw]})
+    # sound direction, stated as obligations: rejected-with-witness patterns satisfy it by being rejected; accepted ones were proved witness-free above
+    out.obligations += len(explained); out.discharged += len(explained)
+    # ---- the fixed expectation file
+    def key(p): return ' '.join(p)
+    now = {'accepted': sorted(key(p) for p, v in verdict.items() if v == 'accepted'), 'rejected': sorted(key(p) for p, v in verdict.items() if v == 'rejected')}
+    if not os.path.exists(C12_SPEC):
+        if out.violations or out.inconclusive:
+            out.inconclusive.append('C12: spec/c12_rejections.json does not exist and is not created from a run with violations or inconclusive obligations')
+        else:
+            json.dump({'comment': 'Fixed expectation of C12, written once from the pinned commit: verdict of the real MacroDetector for every pattern of length <= 3 over the five slot kinds and ten '
+                                  'literal token kinds, and the rejected patterns for which the solver found no witness (two derivations / a word with a proper extension in the language) inside the '
+                                  'bound min(13, shortest word + 4): a prefix-free language can still need more than one token of lookahead. Later runs compare verdicts with this file.',
+                       'token_names': SLOTS + LITERALS, 'accepted': now['accepted'], 'rejected': now['rejected'],
+                       'unexplained_rejections': sorted(key(p) for p in unexplained), 'examined_for_witness': sorted(key(p) for p in explained + unexplained)}, open(C12_SPEC, 'w'), indent=0)
+            cov['expectation_file'] = 'created'
+    spec = json.load(open(C12_SPEC)) if os.path.exists(C12_SPEC) else None
+    changed = []
+    if spec:
+        acc, rej = set(spec['accepted']), set(spec['rejected'])
+        for p, v in verdict.items():
+            rec = 'accepted' if key(p) in acc else 'rejected' if key(p) in rej else None
+            if rec and rec != v: changed.append((p, rec, v))
+        cov.setdefault('expectation_file', 'compared (%d verdicts)' % len(verdict))
+        cov['unexplained_rejections'] = sorted(pattern_text(p) for p in unexplained)
+        cov['unexplained_not_recorded'] = sorted(pattern_text(p) for p in unexplained if key(p) not in set(spec['unexplained_rejections']) and key(p) in set(spec.get('examined_for_witness', [])))
+        for p in unexplained:
+            if key(p) in set(spec.get('examined_for_witness', [])) and key(p) not in set(spec['unexplained_rejections']):
+                out.inconclusive.append('C12: pattern %s was rejected with a witness when the expectation was recorded and has none now (oracle or bound changed?)' % pattern_text(p))
+    out.obligations += len(verdict); out.discharged += len(verdict) - len(changed)
+    for p, rec, v in changed[:4]:
+        body = {'kind': 'pattern', 'pattern': list(p), 'expected_verdict': rec, 'found': v}
+        rep = replay_pattern(wd, body); body['native_replay'] = rep
+        rp = write_replay(prop, 'pat', body)
+        if rep.get('reproduced'):
+            out.violations.append({'property': prop, 'job': 'verdict', 'assertion': 'C12: pattern %s is %s (recorded verdict at the pinned commit), now %s' % (pattern_text(p), rec, v), 'replay': rp, 'confirmed': True, 'cex': {}})
+        else:
+            out.disagreements += 1
+            out.inconclusive.append('C12: verdict of pattern %s differs from the recorded one in the detector but not through the public API (replay %s)' % (pattern_text(p), rp))
+    if len(changed) > 4: cov['further_changed_verdicts'] = [pattern_text(p) for p, _, _ in changed[4:40]]
+    cov.update({'programs': len(family), 'patterns_length_le_2': len(pats), 'patterns_length_3_sampled': len(sample3), 'accepted': sum(1 for p in family if verdict[p] == 'accepted'),
+                'rejected_with_witness': len(explained), 'rejected_without_witness_in_bound': len(unexplained), 'verdicts_compared_with_expectation': len(verdict), 'verdicts_changed': len(changed)})
+    return cov
+
+
+C12_ASSUMPTIONS = [
+    'translation validation per pattern: the real MacroDetector constructor (grammar construction, table generation in prefix mode, getErrors) runs natively on every pattern of the family; the generator\'s code is judged through its verdict and its tables',
+    'the pattern is enumerated (all patterns of length <= 2 over 5 slot kinds and 10 literal token kinds; thorough adds a seeded sample of length 3), the token sequence is symbolic',
+    'oracle: derivation table of the pattern language over the FIXED transcription of the statement grammar of macro.cpp (compared textually with the G.add calls on every run, and through the tables: the transcribed grammar fed to LRParser<int,int> must reproduce the detector\'s tables cell by cell)',
+    'accepted patterns are validated with LRParser<int,int>::parse on the detector\'s own tables (the table content does not depend on the semantic type; Accumulation values are not compared here - C09 covers the matched sequences)',
+    'inputs of the driver obligation range over every token kind a state of the table mentions plus one representative of all others (their columns are identical, checked on the dumped table)',
+    'completeness (a prefix-deterministic pattern is accepted) is checked against the fixed expectation file spec/c12_rejections.json (verdicts of all patterns of length <= 3 at the pinned commit; rejected patterns without a witness inside the bound are listed there, not alarmed)',
+    'the usable filter of apply_macros (a detector with errors is dropped, the others stay) is covered by the macro application harness (assertions tagged C12 there); here: getErrors symbolically + natively on every pattern',
+]
+C12_EXPLANATION = ('For every pattern the real MacroDetector is constructed natively. (i) Sound direction: for accepted patterns the solver proves that no token sequence up to min(13, shortest word + 4) tokens has two '
+                   'derivations or is a word of the pattern language with a proper extension in it (so no pattern that is demonstrably not prefix-deterministic is accepted); for rejected patterns it searches such a witness. '
+                   '(ii) For accepted patterns the real LR driver runs symbolically on the detector\'s own tables: it accepts exactly the inputs with a prefix in the pattern language, for all inputs up to the bound. '
+                   '(iii) Verdicts of all patterns of length <= 3 are compared with the fixed expectation file; a changed verdict is replayed through the public API (DEFINE ... in a source text) before it is reported. '
+                   'getErrors is executed symbolically: an error exists iff generation reported a conflict, it is MACRO_COMPILE_NON_LR at the file/line of the pattern\'s first token.')
